@@ -17,6 +17,7 @@ package appcore
 // sent and no channel is closed here.  fwd is the number of messages forwarded (all
 // received ones, except a final stop message).
 //@ func (*AppCore).HandleMessagesUntilEOF
+//@ spawns[C09] Handle
 //@ requires appCore != nil && reader != nil && appCore.Config != nil
 //@ requires[C13,C09] appCore.Config.TimeoutOnEOFMilliSeconds <= 1<<40 && appCore.Config.WaitTimeOnEOFMilliseconds <= 1<<40
 //@ requires[C09] forall(i, 0, len(appCore.Channels), forall(j, 0, len(appCore.Channels), i != j && appCore.Channels[i] != nil ==> appCore.Channels[i] != appCore.Channels[j]))
